@@ -6,7 +6,7 @@ from vlib import *  # noqa
 
 CLAUSES = {
     "C11": {"running_mismatch", "over_max", "stop_slow"},
-    "C12": {"pstate_backwards", "accepted_after_stop", "stop_lost_task", "waiter_unsettled"},
+    "C12": {"pstate_backwards", "accepted_after_stop", "stop_lost_task", "waiter_unsettled", "stop_never_completes"},
     "C13": {"ran_after_cancel", "collateral_skip", "lost_task", "waiter_unsettled"},
     "C02": {"wrong_result", "late_join"},
     "C05": {"task_order"},
@@ -80,6 +80,19 @@ def seeded(rng, pid):
                 {"a": "submit", "t": 2}, {"a": "body", "t": 2, "step": "long_delay"}, {"a": "body", "t": 2, "step": "finish"},
                 {"a": "abandon", "t": 1}, {"a": "pass", "ms": 15}, {"a": "cancel", "t": 1}, {"a": "pass"}, {"a": "tick"}, {"a": "pass"}]
         return {"nt": 2, "max": 1, "min": 0, "hist": hist, "outcomes": {"1": "ok", "2": "ok"}, "prios": {}, "order": False, "src": shape}
+    if pid == "C12" and rng.random() < 0.2:
+        # a task accepted before the stop submits a follow-up from inside the pool while the pool is stopping (it is
+        # refused) and needs another round afterwards: the stop must still complete, the pool must reach Stopped
+        nt = rng.choice([1, 2])
+        hist, outcomes = [], {}
+        for t in range(1, nt + 1):
+            outcomes[str(t)] = "ok"
+            hist.append({"a": "submit", "t": t})
+            hist += [{"a": "body", "t": t, "step": "chain"}, {"a": "body", "t": t, "step": rng.choice(["delay", "suspend"])},
+                     {"a": "body", "t": t, "step": "finish"}]
+        hist += [{"a": "stop", "ms": 250}]
+        return {"nt": nt, "max": rng.choice([1, 2]), "min": 0, "hist": hist, "outcomes": outcomes, "prios": {}, "order": False,
+                "src": "refused-follow-up-while-stopping"}
     if pid == "C11" and rng.random() < 0.25:
         # a positive keep-alive time (CoPool.tla, KeepAlive = TRUE): several workers are created (every task yields
         # once), the work completes, and the pool is stopped long before the workers' keep-alive time has passed.
